@@ -130,6 +130,8 @@ def _check_once(prog, name='c01'):
              observed='%s in %s' % (tname, site), expected='a definition')
         return fails, info
     info['feats'] = feats
+    info['numvals'] = {i: v for i, v in enumerate(log.get('vals', []))
+                       if isinstance(v, (int, float))}
     dkey = ('C01.denotation:optimize-sub-a-is-b' if feats.get('sub_same_neg')
             else None)
     try:
@@ -138,6 +140,9 @@ def _check_once(prog, name='c01'):
             raise scgf.ScgfError('%d definitions' % len(defs))
         d = defs[0]
         table = den.den_def(d)
+    except den.DenTooLarge:
+        info['inconclusive'] = True
+        return fails, info
     except (scgf.ScgfError, den.DenError) as e:
         fail('C01.denotation', dkey or 'C01.denotation:unreadable-definition',
              'emitted bytes cannot be interpreted: %s' % e,
@@ -253,8 +258,17 @@ def _check_once(prog, name='c01'):
 DEAD_KEY = 'C01.denotation:dead-code-elimination-breaks-live-units'
 
 
-def prune_dead(prog):
-    """The same program without the nodes no output reaches."""
+def prune_dead(prog, numvals=None):
+    """The same program without the nodes no output reaches.  numvals: node
+    index -> Python number the node evaluated to when the function ran (e.g.
+    `x * 0`); such nodes are first replaced by that constant, which leaves the
+    objects the graph function hands to the library unchanged but makes the
+    operands they no longer use visible as dead."""
+    if numvals:
+        nodes = [['const', numvals[i]] if i in numvals and nd[0] not in
+                 ('const', 'ctl', 'osc') else nd
+                 for i, nd in enumerate(prog['nodes'])]
+        prog = dict(prog, nodes=nodes)
     return _renumber(prog, gg.live_nodes(prog))
 
 
@@ -264,9 +278,11 @@ def check_program(prog, name='c01'):
     same program without its dead nodes passes, the dead code is what breaks
     it (DEAD_KEY); otherwise the key follows the shape of the live graph."""
     fails, info = _check_once(prog, name)
-    if any(_family(f) == 'graph' for f in fails) \
-            and len(gg.live_nodes(prog)) < len(prog['nodes']):
-        f2, _ = _check_once(prune_dead(prog), name)
+    pruned = None
+    if any(_family(f) == 'graph' for f in fails):
+        pruned = prune_dead(prog, info.get('numvals'))
+    if pruned is not None and len(pruned['nodes']) < len(prog['nodes']):
+        f2, _ = _check_once(pruned, name)
         if not any(_family(f) in ('graph', 'compile') for f in f2):
             for f in fails:
                 if _family(f) == 'graph':
